@@ -53,7 +53,7 @@ def strategy(draw, tier="quick"):
             "cell": draw(st.sampled_from([None, "ortho", "tric"])), "noise": draw(st.sampled_from([0.0, 0.01, 0.05]))}
     if what == "contacts":
         case.update(scheme=draw(st.sampled_from(["ca", "closest", "closest-heavy", "sidechain", "sidechain-heavy"])),
-                    pairs=draw(st.sampled_from(["all", "explicit", "explicit"])), periodic=draw(st.booleans()),
+                    pairs=draw(st.sampled_from(["all", "explicit", "explicit", "explicit-both-orders"])), periodic=draw(st.booleans()),
                     soft=draw(st.sampled_from([None, None, 20.0, 5.0])), ignore_nonprotein=draw(st.booleans()))
     if what == "rdf":
         case.update(rlo=draw(st.sampled_from([0.0, 0.0, 0.1])), rhi=draw(st.sampled_from([1.0, 0.6, 1.45])),
@@ -141,6 +141,9 @@ def run_case(case):
                 contacts = uniq
                 if not contacts:
                     contacts = [[0, len(residues) - 1]]
+                if case["pairs"] == "explicit-both-orders":
+                    # as itertools.product(group, group) / permutations give them: some pairs also in the other order
+                    contacts = contacts + [[b, a] for a, b in contacts[::2]]
                 if scheme == "ca":
                     # pairs with a residue lacking CA are documented to be ignored; keep at least one that is not
                     with_ca = [i for i, h in enumerate(has_ca) if h]
@@ -219,8 +222,13 @@ def run_case(case):
                             (i, j), scheme, dist[:, k], "soft minimum" if case["soft"] else "minimum", want)))
                         break
                 sq = md.geometry.squareform(dist, rp)
+                occ = {}
+                for k, (i, j) in enumerate(exp_pairs):
+                    occ.setdefault(frozenset((i, j)), []).append(k)
                 for k, (i, j) in enumerate(exp_pairs[:20]):
-                    if not np.array_equal(sq[:, i, j], dist[:, k]) or not np.array_equal(sq[:, j, i], dist[:, k]):
+                    # (a pair listed in both orders has two columns, equal up to the order of summation: either may be shown)
+                    ks = occ[frozenset((i, j))]
+                    if not any(np.array_equal(sq[:, i, j], dist[:, k2]) for k2 in ks) or not any(np.array_equal(sq[:, j, i], dist[:, k2]) for k2 in ks):
                         viol.append(("contacts/squareform", "entry (%d,%d) of the square form is not the distance of that pair" % (i, j)))
                         break
             sizes = {len(members(r)) for r in residues}
